@@ -85,8 +85,13 @@ func parent(r *vlib.Run) {
 	}
 
 	// ---- every path the verdict rests on must have been observed
-	nScripts := int64(len(scriptList(r.Seed, rounds(r))))
-	r.Require("scripts_run", nScripts)
+	// (nRun: every script that ran; nScripts: the general scripts — the
+	// per-script minimums of the general counters do not count on the dedicated
+	// poison scripts, which carry warm-up and background traffic only)
+	list := scriptList(r.Seed, rounds(r))
+	nRun := int64(len(list)) - r.Counter("scripts_skipped_no_ipv6")
+	nScripts := nBaseScripts(list)
+	r.Require("scripts_run", nRun)
 	r.Require("queries_udp", 120*nScripts)
 	r.Require("queries_tcp", 60*nScripts)
 	r.Require("queries_judged", 180*nScripts)
@@ -120,12 +125,52 @@ func parent(r *vlib.Run) {
 	r.Require("pattern/queue-expiry", 6*int64(rounds(r))) // the one-worker / one-slot ready-queue burst (legal uncounted shedding, see FINDINGS.md "Not findings")
 	r.Require("pattern/control", 40*nScripts)        // the always-answerable control client ran beside every script
 	r.Require("junk_counted_by_server", 4)
-	r.Require("quiescence_reached", nScripts)
-	r.Require("goroutines_back_to_baseline", nScripts)
+	r.Require("quiescence_reached", nRun)
+	r.Require("goroutines_back_to_baseline", nRun)
 	r.Require("isolation_followers_recovered", 1)
 	r.Require("isolation_leader_expired", 4)         // the deterministic querytimeout path: slow referrals + black-holed leaf
 	r.Require("isolation_followers_in_flight_at_leader_expiry", 8)
+	requirePoison(r, int64(rounds(r)))
 	r.Note("config", map[string]any{"querytimeout_ms": queryTimeout.Milliseconds(), "upstream_timeout_ms": upstreamTimeout.Milliseconds(), "margin_ms": baseMargin.Milliseconds()})
+}
+
+// requirePoison: whenever forged datagrams can be sent here, the poison bursts
+// must really have happened — poison written in between ordinary queries of
+// tight bursts, replies to it attempted by the server and refused by the
+// kernel, and the ordinary members of those bursts judged — or the run says
+// nothing about "unanswerable traffic disturbs nobody". Without raw sockets
+// the bursts degrade to ordinary unpaced bursts: an assumption, not a reason
+// to be inconclusive.
+func requirePoison(r *vlib.Run, rounds int64) {
+	ri := injector()
+	r.Note("poison_kinds_parent", ri.why)
+	if !ri.rawAvailable(false) {
+		r.Assume(fmt.Sprintf("raw sockets are not available here (%v): no forged-source (port 0 / unroutable) queries were injected; the poison scripts ran as ordinary unpaced bursts", ri.err4))
+		return
+	}
+	if !ri.usable(poisonPort0, false) {
+		r.Assume("this kernel does not refuse a UDP reply to source port 0 (" + ri.why[poisonPort0+"/4"] + "): no port-0 poison was injected")
+		return
+	}
+	r.Require("poison_port0_queries_sent", 300*rounds)
+	r.Require("poison_bursts", 50*rounds)
+	r.Require("poison_bursts_mixed", 50*rounds)
+	r.Require("poison_bursts_tight", 10*rounds)                    // written within 3 ms (wall clock: a low bar, the typical share is > 90 %)
+	r.Require("reply_bursts_with_refused_datagram", 25*rounds)      // bursts during whose reply window the server's transmit-error counter rose
+	r.Require("poison_replies_refused_counted_by_server", 150*rounds)
+	r.Require("poison_burst_good_answered_once", 500*rounds)
+	r.Require("poison_queries_inline_path", 100*rounds)
+	r.Require("poison_queries_worker_path", 100*rounds)
+	r.Require("poison_burst_shape/one-client", 10*rounds)
+	r.Require("poison_burst_shape/many-clients", 10*rounds)
+	if !ri.usable(poisonUnroutable, false) {
+		r.Assume("unroutable-source poison is not usable here (" + ri.why[poisonUnroutable+"/4"] + "): only port-0 poison was injected over IPv4")
+	} else {
+		r.Require("poison_unroutable_queries_sent", 30*rounds)
+	}
+	if !v6LoopbackUsable() || !ri.usable(poisonPort0, true) {
+		r.Assume("port-0 poison over IPv6 is not usable here (" + ri.why[poisonPort0+"/6"] + "): the IPv6 listener saw ordinary bursts only")
+	}
 }
 
 // child runs scripts i ≡ g (mod n) of the list, sequentially.
